@@ -48,7 +48,43 @@ def seq (h ops : String) : String :=
       let rcs := if opl.isEmpty then "-" else ",".intercalate (opl.map fun _ => "0")
       s!"ok {rcs} " ++ " ".intercalate (ws.map wstr) ++ (if e then " e=1" else " e=0")
 
+/-- the state after an operation, failed or not: `(return code, state)`; `write` = a `dovi_write_rpu` call in the
+middle of the sequence (state unchanged) -/
+def stepKeep (r : Rpu) (op : String) : Int × Rpu :=
+  if op == "write" then
+    (match cData (writeRpu r) with | some (some _) => (0, r) | _ => (-1, r))
+  else
+    match EditOps.applyOp r op with
+    | .ok r' => (0, r')
+    | _ =>
+      match op.splitOn ":" with
+      | ["mode", n] => (-1, r.afterFailedConvert (modeOfU8 (n.toNat! % 256)))
+      | "offs" :: _ => (-1, r.afterFailedOffsets)
+      | _ => (-1, r)
+
+def runKeep (r : Rpu) : List String → List Int × Rpu
+  | [] => ([], r)
+  | op :: ops =>
+    let (rc, r') := stepKeep r op
+    let (rcs, r'') := runKeep r' ops
+    (rc :: rcs, r'')
+
+/-- `capi.seqview` (json = C view) / `rpu.ops3json` (json = serde JSON): the sequence continues after failed
+operations; `e` = some operation failed -/
+def seqKeep (asView : Bool) (h ops : String) : String :=
+  match parseRpuEntry (unhex h) with
+  | .error => "err"
+  | .panic => "panic"
+  | .ok r =>
+    let opl := if ops == "-" then [] else ops.splitOn ";"
+    let (rcs, cur) := runKeep r opl
+    let e := rcs.any (· != 0)
+    let rcss := if rcs.isEmpty then "-" else ",".intercalate (rcs.map toString)
+    s!"ok {rcss} e={if e then 1 else 0} " ++ (if asView then (cview cur).toJson.render else cur.toJson.render)
+
 def run : List String → String
+  | ["capi.seqview", h, ops] => seqKeep true h ops
+  | ["rpu.ops3json", h, ops] => seqKeep false h ops
   | ["capi.view", entry, h] => view entry (unhex h)
   | ["capi.seq", h, ops] => seq h ops
   | ["rpu.ops3", h, ops] => seq h ops
